@@ -219,6 +219,67 @@ def observe_pairs(chk: Check, sch: list[dict], b: dict, piece: int = 400) -> lis
     return traces
 
 
+# ---------------------------------------------------------------------------------------------
+# long streams
+
+
+def long_family(chk: Check, b: dict) -> list[dict]:
+    cfg = f"SPECIFICATION Spec\nCONSTANTS\n Tier = {b['tier']}\nINVARIANT LawHolds\nINVARIANT MachineAgrees\nINVARIANT LawsApply\nCHECK_DEADLOCK FALSE\n"
+    r = run_tlc(chk.scratch, "MC_StreamLong", cfg, allow_violation=True, timeout=1500, heap=HEAP, env=JVM)
+    chk.add_tlc(f"MC_StreamLong[tier={b['tier']}]", r)
+    if r.violated:
+        chk.fail("C18.design_invariant", {"invariant": r.violated[0]}, {"bounds": b}, r.out[-2500:])
+        return []
+    fam = r.printed.get("LONG", [])
+    chk.require(len(fam) > 0, "MC_StreamLong printed no long stream")
+    chk.require(all(x["liftable"] for x in fam), "a long stream of the family is outside the domain of the lifting laws")
+    chk.require(r.distinct > 2 * len(fam), "no instance of the lifting laws was checked")
+    chk.clause("StreamCore!ExpectedLong laws", r.distinct - 2 * len(fam))
+    fam.sort(key=lambda x: (x["L"]["name"], x["total"]))
+    for i, x in enumerate(fam):
+        x["id"] = f"long{i:02d}:{x['L']['name']}:{x['total']}"
+        x["chunkings"].sort(key=lambda c: (len(c["cuts"]), c["label"], c["size"]))
+        chk.require(x["chunkings"][0]["cuts"] == [], "the unsplit run is not part of a long stream's chunkings")
+    chk.require(max(x["total"] for x in fam) > 65536 * 2, "no long stream well beyond 64 Ki")
+    return fam
+
+
+def observe_long(chk: Check, fam: list[dict]) -> list[dict]:
+    jobs = [{"id": x["id"], "kind": "long", "L": x["L"], "chunkings": [{"cuts": c["cuts"]} for c in x["chunkings"]]} for x in fam]
+    order = sorted(jobs, key=lambda j: -j["L"]["reps"] * (len(j["L"]["pre"]) + j["L"]["m"] + len(j["L"]["post"])))
+    res = {r["id"]: r for r in core.parallel_py(chk.scratch, "harness.w_stream", order)}
+    traces = []
+    for x in fam:
+        r = res[x["id"]]
+        note_absent(chk, r["absent"])
+        chk.require(r["total"] == x["total"], "long stream built with a different length than the specification's")
+        chk.cov["helper_runs"] = chk.cov.get("helper_runs", 0) + r["runs"]
+        traces.append({"id": x["id"], "kind": "long", "L": x["L"], "total": x["total"], "labels": [{"label": c["label"], "size": c["size"]} for c in x["chunkings"]], "dec": r["dec"], "_cuts": [c["cuts"] for c in x["chunkings"]]})
+    return traces
+
+
+def account_long(chk: Check, t: dict, v: dict) -> None:
+    ndec = len(t["dec"])
+    chk.cov["traces_validated_against_impl"] += v["nruns"] * ndec
+    chk.count(v["nruns"])
+    chk.cov["long_stream_runs"] = chk.cov.get("long_stream_runs", 0) + v["nruns"]
+    ls = chk.cov.setdefault("long_streams", [])
+    ls.append({"shape": t["L"]["name"], "bytes": t["total"], "items": v["nitems"], "chunkings": v["nruns"]})
+    for j in range(1, v["nruns"]):
+        chk.nontrivial(f"{v['id']}#{j}")
+    for dd in t["dec"]:
+        if dd["name"] == "iter_bytes":
+            chk.clause("C18.bytes_concat", v["nruns"])
+        else:
+            chk.clause("C18.differs_from_unsplit", v["nruns"] - 1)
+            chk.clause("C18.differs_from_spec", 1 if v["liftable"] else 0)
+    thr = max([x for x in (4096, 8192, 65536, 262144, 1048576) if x <= t["total"]] or [0])
+    for fl in (f for per_helper in v["fails"] for f in per_helper):
+        loc = {"helper": fl["dec"], "relative_to": fl["rel"], "error": fl["err"], "stream": "long", "length_at_least": thr, "chunking": fl["label"] + (f"-{fl['size']}" if fl["size"] else ""), "differs_in": fl["field"]}
+        scen = {"kind": "long", "L": t["L"], "total": t["total"], "label": fl["label"], "size": fl["size"], "cuts": t["_cuts"][fl["run"] - 1], "helper": fl["dec"]}
+        chk.fail(fl["clause"], loc, scen, f"{fl['dec']} on long stream {t['L']['name']} ({t['total']} bytes), chunking {loc['chunking']} ({len(scen['cuts'])} cuts): {fl['nobs']} items, {'the unsplit run' if fl['rel'] == 'unsplit' else 'the lifted whole-stream meaning'} has {fl['nexp']} (error: {fl['err']})")
+
+
 def text_of(bs: list[int]) -> str:
     return bytes(bs).decode("utf-8", "backslashreplace").encode("unicode_escape").decode("ascii")
 
@@ -232,7 +293,7 @@ def judge(chk: Check, traces: list[dict], label: str) -> None:
     batches: list[list[dict]] = [[]]
     size = 0
     for t in traces:
-        n = len(t["chunkings"]) if t["kind"] == "single" else 3 * len(t["runs"])
+        n = len(t["chunkings"]) if t["kind"] == "single" else 3 * len(t["runs"]) if t["kind"] == "pair" else 2000
         if batches[-1] and size + n > BATCH_PAIRS[chk.tier]:
             batches.append([])
             size = 0
@@ -243,7 +304,7 @@ def judge(chk: Check, traces: list[dict], label: str) -> None:
         tf = d / "traces.ndjson"
         with tf.open("w") as f:
             for t in part:
-                f.write(json.dumps(t, separators=(",", ":")) + "\n")
+                f.write(json.dumps({k: x for k, x in t.items() if not k.startswith("_")}, separators=(",", ":")) + "\n")
         r = run_tlc(chk.scratch, "Trace_Stream", "SPECIFICATION Spec\nCHECK_DEADLOCK FALSE\n", env={"TRACE_FILE": str(tf), **JVM}, timeout=1500, heap=HEAP)
         chk.add_tlc(f"Trace_Stream[{label}:{lo}]", r)
         vs = r.printed.get("VERDICT", [])
@@ -252,6 +313,8 @@ def judge(chk: Check, traces: list[dict], label: str) -> None:
         for v in vs:
             if v["kind"] == "pair":
                 account_pair(chk, by_id[v["id"]], v)
+            elif v["kind"] == "long":
+                account_long(chk, by_id[v["id"]], v)
             else:
                 account_single(chk, by_id[v["id"]], v)
     singles = [t for t in traces if t["kind"] == "single" and t["header"] == "none"]
@@ -344,7 +407,8 @@ def run(chk: Check) -> None:
         f"every chunking with <= {b['cuts']} cuts beyond (response without Content-Type); under each of 5 further Content-Types (no charset, utf-8, "
         f"ISO-8859-1, latin-1, unknown charset) every subset for streams <= {b['afull']} bytes and every chunking with <= {b['acuts']} cuts beyond; "
         f"two streams in one event loop: every interleaving of their chunks (<= {b['pcuts']} key cuts per stream or a cut at every line boundary), "
-        "stream 1 also abandoned after any chunk; each scenario is (i) explored by the TLC design check and (ii) replayed on the "
+        "stream 1 also abandoned after any chunk; long streams (repeated units and single long lines passing 4 Ki / 64 Ki / 256 Ki"
+        f"{' / 1 Mi' if b['tier'] > 1 else ''}) in fixed 1460 / 4096 / 16384 / 65536-byte chunks, two halves and boundaries around every threshold; each scenario is (i) explored by the TLC design check and (ii) replayed on the "
         "real helpers; non-trivial = (stream, header, chunking) with at least one cut strictly inside an event / record "
         "(StreamCore!CutKind # at_rest) or schedule that switches streams while an event is partly received (StreamPair!mid)"
     )
@@ -355,6 +419,7 @@ def run(chk: Check) -> None:
         "iter_bytes is judged on the concatenation of what it yields; whether chunk boundaries are preserved is recorded, not judged",
         "under a declared non-UTF-8 or unknown charset only the chunk-independence relation (same items as the unsplit run under the same header) is a clause; the model's prediction for that charset is compared as DRIFT only",
         "an abandoned stream is one whose transport raises httpx.ReadError instead of delivering its next chunk",
+        "long streams are described symbolically ((pre + fill^m + post)^reps); their expected items are the short twin's whole-stream meaning lifted by the repetition and stretching laws that MC_StreamLong checks for small m and reps",
     ]
     n_mc, states_mc = design(chk, b)
     scen = generate(chk, b)
@@ -371,10 +436,15 @@ def run(chk: Check) -> None:
         want = sum(len(c) + 3 for s in scen for k in ("chunkings", "alt") for c in s[k])
         chk.require(states_mc == want, f"design run found {states_mc} distinct states, {want} expected (one Deliver per chunk and one Close per scenario)")
     sch = pair_schedules(chk, b)
+    longs = long_family(chk, b)
     traces = observe(chk, scen)
     if sch:
         traces = observe_pairs(chk, sch, b) + traces
+    if longs:
+        traces = observe_long(chk, longs) + traces
     judge(chk, traces, "family")
+    if longs:
+        chk.require(chk.cov.get("long_stream_runs", 0) == sum(len(x["chunkings"]) for x in longs), "not every long-stream chunking was replayed and judged")
     kc = chk.cov.get("pairs_with_cut_kind", {})
     ka = chk.cov.get("alt_header_scenarios_with_cut_kind", {})
     for k in MUST_KINDS:
@@ -391,7 +461,15 @@ def run(chk: Check) -> None:
 def replay(chk: Check, path: str) -> None:
     rec = json.loads(open(path).read())
     sc = rec["scenario"]
-    if sc.get("kind") == "pair":
+    if sc.get("kind") == "long":
+        x = {"id": "replay", "L": sc["L"], "total": sc["total"], "chunkings": [{"label": "unsplit", "size": 0, "cuts": []}, {"label": sc["label"], "size": sc["size"], "cuts": sc["cuts"]}]}
+        traces = observe_long(chk, [x])
+        for d in traces[0]["dec"]:
+            for c, i in zip(x["chunkings"], d["idx"]):
+                o = d["outs"][i - 1]
+                print(f"REPLAY {d['name']} chunking={c['label']}{c['size'] or ''} ({len(c['cuts'])} cuts) -> {o['items']['n']} items, period {len(o['items']['period'])}, err {o['err']}")
+        judge(chk, traces, "replay")
+    elif sc.get("kind") == "pair":
         job = {"id": "replay", "kind": "pair", "streams": sc["streams"], "runs": [dict(sc["run"], mid=bool(sc["run"].get("mid", False)))]}
         r = core.parallel_py(chk.scratch, "harness.w_stream", [job])[0]
         t = {"id": "replay", "kind": "pair", "s": job["streams"], "runs": job["runs"], "ref": r["ref"], "outs": r["outs"], "idx": r["idx"]}
